@@ -36,6 +36,9 @@ func runC15(c *Ctx) {
 	c07Read(c)
 	c07DFA(c) // executes the table index of the step function for every reachable state x byte
 	readerReadRules(c, "C15")
+	// Discard's loop ends on every script: an iteration fails or advances to the next frame (a
+	// dropped NextFrame error makes it spin on a stream that has ended)
+	readerDiscardRules(c, "C15")
 	readLineRules(c, "C15")
 	c03ParseClose(c)
 	c03CloseBody(c)
